@@ -18,7 +18,8 @@ RULES = {
     "exh": "exhaustive: sizes 0..7 x every range set of 1..k specs (first-last, first-, -suffix over 0..8), "
     "joined with ',' and with ' , '; non-trivial = two specs overlap/touch/nest/are out of order, or a spec "
     "sits exactly on a rejection edge (first=size, first=last+1, suffix in {0,size,size+1})",
-    "rand": "Hypothesis: sizes up to 10^12, 1..12 specs biased to the file end and powers of ten, permuted "
+    "long": "enumerated: headers with 12..600 specs (disjoint single bytes in both orders, with an invalid / unsatisfiable / byte-adding spec at the very end)",
+    "rand": "Hypothesis: sizes up to 10^12, 1..12 specs (occasionally 40..200) biased to the file end and powers of ten, permuted "
     "overlapping/adjacent/nested sets; same non-trivial rule",
     "text": "arbitrary text after/instead of 'bytes=': structural clause + exception class only; "
     "non-trivial = header contains a digit-dash pattern",
@@ -138,7 +139,7 @@ def oracle(case) -> Result:
     return r
 
 
-SUBS = {"exh": oracle, "rand": oracle, "text": oracle}
+SUBS = {"exh": oracle, "rand": oracle, "text": oracle, "long": oracle}
 
 # ---------------------------------------------------------------------------------------
 # exhaustive small domain
@@ -194,7 +195,7 @@ def rand_case(draw):
     )
     anchors = sorted({0, 1, 2, max(n - 2, 0), max(n - 1, 0), n, n + 1, n // 2, n // 2 + 1, 9, 10, 11, 99, 100})
     num = st.one_of(st.sampled_from(anchors), st.integers(0, max(n + 2, 3)), st.integers(0, 30))
-    nspec = draw(st.integers(1, 12))
+    nspec = draw(st.integers(1, 12)) if draw(st.integers(0, 14)) else draw(st.integers(40, 200))
     specs = []
     base = draw(st.lists(num, min_size=2, max_size=6))  # a small pool => overlaps and touches are frequent
     pool = st.one_of(st.sampled_from(base), num, st.sampled_from(base).map(lambda x: x + 1))
@@ -253,8 +254,25 @@ def oracle_atheris(case) -> Result:
 
 SUBS["atheris"] = oracle_atheris
 
+def long_cases():
+    """Headers with many specs (a server-side cap on the number of specs must not silently drop the tail):
+    k disjoint single-byte ranges, the same with an invalid or an unsatisfiable spec at the very end, and
+    a long redundant prefix followed by one spec that adds bytes."""
+    for k in (12, 33, 63, 64, 65, 66, 100, 129, 257, 600):
+        n = 4 * k + 10
+        specs = [f"{2 * i}-{2 * i}" for i in range(k)]
+        yield {"h": "bytes=" + ",".join(specs), "n": n}
+        yield {"h": "bytes=" + ", ".join(reversed(specs)), "n": n}
+        yield {"h": "bytes=" + ",".join(specs + ["9-3"]), "n": n}
+        yield {"h": "bytes=" + ",".join(specs + [f"{n}-"]), "n": n}
+        yield {"h": "bytes=" + ",".join(["0-1"] * k + [f"{n - 2}-"]), "n": n}
+        yield {"h": "bytes=" + ",".join(["0-1"] * k + ["-1"]), "n": n}
+
+
 def run(rec, only=None):
     quick = rec.tier == "quick"
+    core.drive_cases(rec, "long", long_cases(), oracle)
+    rec.exhaustive["long"] = True
     if quick:
         core.run_sharded(rec, exh_shard, 8, min(8, core.ncpu()), (2, 7, 8))
     else:
